@@ -1,7 +1,75 @@
 import Cherab.Drv.Proto
-open Cherab.Drv
+import Cherab.Model.Voxels
+open Cherab.Drv Cherab.Voxels
 
-/-- C17 driver: not yet implemented (echo) -/
+def pairs : List Float → List (Float × Float)
+  | a :: b :: t => (a, b) :: pairs t
+  | _ => []
+
+def triples : List Nat → List (Nat × Nat × Nat)
+  | a :: b :: c :: t => (a, b, c) :: triples t
+  | _ => []
+
+def fSamples (ss : List (Nat × (Float × Float))) : String :=
+  " ".intercalate (ss.map fun s => s!"{s.1} {fF s.2.1} {fF s.2.2}")
+
+/-- protocol:
+  geom pi x0 y0 x1 y1 …            → ok cw area (c cx cy | z) volume  | TypeError | ValueError
+  norm x0 y0 …                     → normalised vertex list
+  tot v0 v1 …                      → total volume
+  find v x0 x1 …                   → find_index
+  pick total u c0 c1 …             → pickTriangle
+  cum nv verts… nt tris…           → total_area cum…
+  emis nv verts… nt tris… N c0 c1 c2 c3 nu us…  → ok est (tri px pz)* | err msg k (tri px pz)*
+-/
+def step (ts : List String) : String :=
+  match ts with
+  | "geom" :: pi :: rest =>
+    match mkVoxel (pairs (rest.map pF)) with
+    | .error e => e
+    | .ok l =>
+      let c := match centroid l with
+        | none => "z"
+        | some c => s!"c {fF c.1} {fF c.2}"
+      s!"ok {fB (clockwise (pairs (rest.map pF)))} {fF (area l)} {c} {fF (volume (pF pi) l)}"
+  | "norm" :: rest =>
+    fFs ((normalise (pairs (rest.map pF))).flatMap fun p => [p.1, p.2])
+  | "tot" :: rest => fF (totalVolume (rest.map pF))
+  | "find" :: v :: rest => toString (findIndex (rest.map pF) (pF v))
+  | "pick" :: total :: u :: rest => toString (pickTriangle (rest.map pF) (pF total) (pF u))
+  | "cum" :: nv :: rest =>
+    let nv := pN nv
+    let verts := pairs ((rest.take (2 * nv)).map pF)
+    let rest := rest.drop (2 * nv)
+    match rest with
+    | nt :: rest =>
+      let tris := triples ((rest.take (3 * pN nt)).map pN)
+      fFs (area verts :: cumulativeAreas (triAreas verts tris))
+    | _ => "bad-op"
+  | "emis" :: nv :: rest =>
+    let nv := pN nv
+    let verts := pairs ((rest.take (2 * nv)).map pF)
+    let rest := rest.drop (2 * nv)
+    match rest with
+    | nt :: rest =>
+      let nt := pN nt
+      let tris := triples ((rest.take (3 * nt)).map pN)
+      let rest := rest.drop (3 * nt)
+      match rest with
+      | n :: c0 :: c1 :: c2 :: c3 :: _nu :: us =>
+        let (c0, c1, c2, c3) := (pF c0, pF c1, pF c2, pF c3)
+        let f : Float → Float → Float := fun x z => c0 + c1 * x + c2 * z + c3 * x * z
+        let us := us.map pF
+        match emissivity Float.sqrt f verts tris (pN n) us with
+        | .ok (est, ss) => s!"ok {fF est} {fSamples ss}"
+        | .error e =>
+          let cum := cumulativeAreas (triAreas verts tris)
+          let ss := (drawN Float.sqrt verts tris cum (area verts) (pN n) us).1
+          s!"err {e} {ss.length} {fSamples ss}"
+      | _ => "bad-op"
+    | _ => "bad-op"
+  | _ => "bad-op"
+
 def main : IO UInt32 := do
-  loop (stateless fun ts => " ".intercalate ts) (← IO.getStdin) (← IO.getStdout) ()
+  loop (stateless step) (← IO.getStdin) (← IO.getStdout) ()
   return 0
